@@ -260,6 +260,7 @@ static void memory_page_write(vm_mngr_t* vm_mngr, unsigned int my_size,
 	struct memory_page_node * mpn;
 	unsigned char * addr;
 	struct memory_breakpoint_info * b;
+	unsigned int i;
 
 	mpn = get_memory_page_from_address(vm_mngr, ad, 1);
 	if (!mpn)
@@ -324,6 +325,17 @@ static void memory_page_write(vm_mngr_t* vm_mngr, unsigned int my_size,
 			fprintf(stderr, "Bad memory access size %d\n", my_size);
 			exit(EXIT_FAILURE);
 			break;
+		}
+		/* A faulting write must not modify memory: check every byte first */
+		for (i = 1; i < my_size / 8; i++) {
+			mpn = get_memory_page_from_address(vm_mngr, ad + i, 1);
+			if (!mpn)
+				return;
+			if ((mpn->access & PAGE_WRITE) == 0){
+				fprintf(stderr, "access to non writable page!! %"PRIX64"\n", ad + i);
+				vm_mngr->exception_flags |= EXCEPT_ACCESS_VIOL;
+				return ;
+			}
 		}
 		while (my_size){
 			mpn = get_memory_page_from_address(vm_mngr, ad, 1);
